@@ -18,6 +18,7 @@ DESTROY = 'htp_tx_destroy_incomplete/contract_c05_destroy_incomplete'
 A_FCLR = 'receiver finalisation (htp_connp_re[qs]_receiver_finalize_clear, raw header/trailer data callbacks) replaced by a logging stub: any of OK/STOP/ERROR, clears the receiver'
 A_SINK = 'body sink replaced by a logging stub (OK or ERROR, call and arguments logged in the same event sequence); the sinks themselves are enforced by units htp_tx_re[qs]_process_body_data_ex (C06)'
 A_DESTROY = 'htp_tx_destroy_incomplete replaced by a stub that frees the transaction and detaches it from in_tx/out_tx (htp_connp_tx_remove); teardown itself is C01/C18'
+A_PUT = 'no PUT file pending (connp->put_file == NULL): the cleanup branch (bstr_free + free) blows up the SAT encoding (> 240 s) and belongs to teardown (C18)'
 A_SITE_IN = 'call-site fact: the parser calls this function with tx == connp->in_tx (htp_request.c:360,867,890,915,1084; htp_response.c:1214); hybrid-mode user calls are not covered'
 A_SITE_OUT = 'call-site fact: the parser calls this function with tx == connp->out_tx (htp_response.c:1142,1165,1185,1349); hybrid-mode user calls are not covered'
 
@@ -38,9 +39,9 @@ tx('htp_tx_state_request_headers', 'headers phase: header post-processing (ends 
    [HOOK, RFCLR, 'htp_tx_process_request_headers/contract_c05_prh', 'htp_log'],
    [A_SITE_IN, A_FCLR, 'htp_tx_process_request_headers replaced by a frame-only logging stub (no progress / in_tx / out_tx assignment in htp_transaction.c:361-590; C11 carries its content)'])
 tx('htp_tx_state_request_complete_partial', 'end-of-body marker (NULL,0) to the sink BEFORE REQUEST_COMPLETE, then receiver flush; refusal at any step returned at once; REQUEST_COMPLETE delivered => progress COMPLETE',
-   [HOOK, RSINK, RFCLR], [A_SINK, A_FCLR, 'entered with request_progress != COMPLETE (its only caller htp_tx_state_request_complete guards it)'], link=['bstr.c'])
+   [HOOK, RSINK, RFCLR], [A_SINK, A_FCLR, 'entered with request_progress != COMPLETE (its only caller htp_tx_state_request_complete guards it)', A_PUT], link=['bstr.c'])
 tx('htp_tx_state_request_complete', 'REQUEST_COMPLETE (and the end marker) delivered iff progress was not COMPLETE on entry => at most once over any history; OK => in_tx == NULL and request side idle; TRANSACTION_COMPLETE only when both sides complete, after REQUEST_COMPLETE, then destruction only with tx_auto_destroy; given INV_RES the delivered transaction is attached to neither side (K)',
-   [HOOK, RSINK, RFCLR, DESTROY], [A_SITE_IN, A_SINK, A_FCLR, A_DESTROY,
+   [HOOK, RSINK, RFCLR, DESTROY], [A_SITE_IN, A_SINK, A_FCLR, A_DESTROY, A_PUT,
                                    'INV_RES on entry: a response-complete transaction is not attached as out_tx. NOT re-established by htp_tx_state_response_complete_ex on its DATA_OTHER return: known finding F4 (notes/c05.md)'],
    link=['bstr.c'])
 tx('htp_tx_finalize', 'TRANSACTION_COMPLETE runs iff both progress indicators are COMPLETE, first and once; refusal returned, nothing destroyed; htp_tx_destroy only after a successful callback and only with cfg->tx_auto_destroy; otherwise nothing changes',
@@ -52,6 +53,13 @@ UNITS.append(U(name='htp_tx_is_complete', props=P, kind='contract', src=['htp_tr
 tx('htp_tx_state_response_start', 'transaction attached as out_tx before RESPONSE_START, which is the only event, exactly once; progress NOT_STARTED/LINE -> LINE (BODY after HTTP/0.9) on OK, untouched on refusal',
    [HOOK, 'htp_log'], ['response_progress <= LINE on entry (RES_IDLE calls it for the transaction it has just picked)'])
 tx('htp_tx_state_response_line', 'RESPONSE_LINE is the only event, exactly once, its result is returned; progress untouched', [HOOK, 'htp_log'])
+tx('htp_tx_state_response_headers', 'raw header data flushed, then RESPONSE_HEADERS exactly once for this tx; refusal of either returned at once (no decompressor set-up after it); progress untouched',
+   [HOOK, SFCLR, 'htp_log', 'htp_table_get_c/contract_c05_table_get_c', 'bstr_cmp_c_nocasenorzero/contract_c05_any_cmp_c',
+    'bstr_util_mem_index_of_c_nocase/contract_c05_any_index_of', 'bstr_util_cmp_mem/contract_c05_any_cmp_mem',
+    'htp_gzip_decompressor_create/contract_c05_decompressor_create', 'htp_tx_res_destroy_decompressors', 'get_token/contract_c05_get_token'],
+   [A_FCLR, 'header lookup, string comparisons, tokenizer and decompressor creation replaced by frame-only stubs returning arbitrary values (C07 / C17 carry them)',
+    'the Content-Encoding tokenizer loop is NOT closed by a loop contract (its heap-growing decompressor chain has no SAT-expressible invariant): it is unwound completely (4 iterations, unwinding assertion) under the precondition 1 <= cfg->response_decompression_layer_limit <= 2 (library default 2; 0 = unlimited excluded)'],
+   unwindset='htp_tx_state_response_headers_wrapped_for_contract_checking.0:4', expect_loops_closed=False, objbits=12)
 tx('htp_tx_state_response_complete_ex', 'RESPONSE_COMPLETE (and the end marker) delivered iff progress was not COMPLETE on entry => at most once over any history; the two DATA_OTHER yields happen before finalisation and leave out_tx attached; OK => out_tx == NULL and RES_IDLE; TRANSACTION_COMPLETE only when both sides complete, after RESPONSE_COMPLETE, refusal returned; given INV_REQ the delivered transaction is attached to neither side (K)',
    [HOOK, SSINK, SFCLR, DESTROY], [A_SITE_OUT, A_SINK, A_FCLR, A_DESTROY,
                                    'KNOWN_F_C05_TXCOMPLETE_TWICE defined: INV_RES is claimed on return only for HTP_OK, not for HTP_DATA_OTHER (known finding F4, notes/c05.md); run with C05_STRICT=1 for the failing obligation'],
